@@ -33,7 +33,10 @@ UniqueNames(tg) == \A i, j \in Idx(tg.tiers) : i # j => tg.tiers[i].name # tg.ti
 MutClauses(e) ==
   [ C13_failed_mutator_unchanged |-> (~OkE(e)) => e.post = e.pre,
     C13_argument_unchanged |-> e.argtpost = e.argt /\ e.argtgpost = e.argtg,
-    C12_names_unique |-> UniqueNames(e.post) ]
+    C12_names_unique |-> UniqueNames(e.post),
+    \* a call the list model refuses is a no-op of the list model: same names, same order, same span
+    C12_refused_call_keeps_names_order_and_span |-> (~OkE(e)) =>
+        (Names(e.post) = Names(e.pre) /\ e.post.lo = e.pre.lo /\ e.post.hi = e.pre.hi) ]
 CopyClauses(e) ==
   [ C13_receiver_unchanged |-> e.post = e.pre,
     C13_argument_unchanged |-> e.argtpost = e.argt /\ e.argtgpost = e.argtg ]
@@ -125,7 +128,9 @@ SpaceTgClauses(e) ==
 
 EditTgClauses(e) ==
   [ C09_textgrid_span_grows_never_shrinks |-> RetTg(e) =>
-        (e.ret.lo = HullLo(e.ret.tiers, e.pre.lo) /\ e.ret.hi = HullHi(e.ret.tiers, e.pre.hi)) ]
+        (e.ret.lo = HullLo(e.ret.tiers, e.pre.lo) /\ e.ret.hi = HullHi(e.ret.tiers, e.pre.hi)),
+    \* leaving the old span is reported as the reportingMode says: a message is printed in mode "warning" only
+    C09_textgrid_shift_prints_only_in_warning_mode |-> e.out => e.args.mode = "warning" ]
 
 (* ---------------- appendTextgrid ------------------------------------------------ *)
 AppendTgClauses(e) ==
